@@ -104,7 +104,7 @@ theorem reachable_cfg {c : Cfg} {s : State} (h : Reachable c s) : s.cfg = c := b
 theorem capBytes_mono_allocThrow {s : State} (hc : CfgOK s.cfg) (h : Inv s) (k sz : Nat)
     (hok : (stepAllocThrow s k sz).1.ok = true) : capBytes s ≤ capBytes (stepAllocThrow s k sz).1 := by
   have h1 : capBytes s ≤ capBytes (stepAlloc s k sz).1 :=
-    capBytes_mono_step s hc h.mem.vsize_le (Op.alloc k sz) ⟨(fun e => by cases e), (fun e => by cases e), (fun _ _ e => by cases e)⟩
+    capBytes_mono_step s hc h.mem.vsize_le (Op.alloc k sz) ⟨(fun e => by cases e), (fun e => by cases e), (fun _ _ => ⟨(fun e => by cases e), (fun e => by cases e)⟩)⟩
   unfold stepAllocThrow at hok ⊢
   split
   · rename_i id blk hres
@@ -116,12 +116,12 @@ theorem capBytes_mono_allocThrow {s : State} (hc : CfgOK s.cfg) (h : Inv s) (k s
       have : (stepAlloc s k sz).1.cfg = s.cfg := step_cfg s (Op.alloc k sz)
       rw [this]; exact hc
     have h2 : capBytes (stepAlloc s k sz).1 ≤ capBytes (stepFree (stepAlloc s k sz).1 id).1 :=
-      capBytes_mono_step _ hc1 hi1.mem.vsize_le (Op.free id) ⟨(fun e => by cases e), (fun e => by cases e), (fun _ _ e => by cases e)⟩
+      capBytes_mono_step _ hc1 hi1.mem.vsize_le (Op.free id) ⟨(fun e => by cases e), (fun e => by cases e), (fun _ _ => ⟨(fun e => by cases e), (fun e => by cases e)⟩)⟩
     exact Nat.le_trans h1 h2
   · exact h1
 
 theorem capBytes_mono_run {s : State} (hc : CfgOK s.cfg) (h : Inv s) (ops : List Op)
-    (hnd : Op.destroy ∉ ops ∧ Op.swapobj ∉ ops)
+    (hnd : Op.destroy ∉ ops ∧ Op.swapobj ∉ ops ∧ ∀ k sz, Op.allocFail k sz ∉ ops)
     (hok : (run s ops).ok = true) : capBytes s ≤ capBytes (run s ops) := by
   induction ops generalizing s with
   | nil => exact Nat.le_refl _
@@ -132,9 +132,11 @@ theorem capBytes_mono_run {s : State} (hc : CfgOK s.cfg) (h : Inv s) (ops : List
       · obtain ⟨k, sz, rfl⟩ := hth
         exact capBytes_mono_allocThrow hc h k sz hok1
       · exact capBytes_mono_step s hc h.mem.vsize_le op
-          ⟨fun e => hnd.1 (by simp [e]), fun e => hnd.2 (by simp [e]), fun k sz e => hth ⟨k, sz, e⟩⟩
+          ⟨fun e => hnd.1 (by simp [e]), fun e => hnd.2.1 (by simp [e]),
+            fun k sz => ⟨fun e => hth ⟨k, sz, e⟩, fun e => hnd.2.2 k sz (by simp [e])⟩⟩
     have h2 := ih (s := (step s op).1) (by rw [step_cfg]; exact hc) (inv_step hc h op hok1)
-      ⟨fun e => hnd.1 (List.mem_cons_of_mem _ e), fun e => hnd.2 (List.mem_cons_of_mem _ e)⟩ hok
+      ⟨fun e => hnd.1 (List.mem_cons_of_mem _ e), fun e => hnd.2.1 (List.mem_cons_of_mem _ e),
+        fun k sz e => hnd.2.2 k sz (List.mem_cons_of_mem _ e)⟩ hok
     exact Nat.le_trans h1 h2
 
 end Cocls.Storage
